@@ -167,6 +167,12 @@ func (c *checker) buildSources() {
 		seen := c.firstSight(id)
 		s := src{call: e.Seq, ret: seen, certain: seen < c.inf, what: fmt.Sprintf("listener L%d error on %s of scope %d", e.Lid, evNames[e.Ev], tn)}
 		c.errSrc[g] = append(c.errSrc[g], s)
+		// the error is visible before the context is marked done (append, then stop): as a cause
+		// of IsDone it is only certain once the call that ran the listener has returned
+		s.ret, s.certain = c.inf, false
+		if seen < c.inf && e.Op >= 0 && c.ret[e.Op] >= 0 {
+			s.ret, s.certain = c.ret[e.Op], true
+		}
 		c.stopSrc[g] = append(c.stopSrc[g], s)
 	}
 }
